@@ -24,6 +24,15 @@ class HarnessError(Exception):
     """A bug in the harness itself (never a verdict on pulsarbat)."""
 
 
+class ValidInputRefused(Exception):
+    """Raised by a generator when pulsarbat refuses (raises on) an input every property's domain contains, e.g. while a
+    workload builds its operands.  The runner reports it as a violation of the property under check, not as a harness error."""
+
+    def __init__(self, oracle, what, features=None):
+        super().__init__(what)
+        self.oracle, self.what, self.features = oracle, what, dict(features or {})
+
+
 def jsonable(x, depth=0):
     """Best-effort conversion of witnesses / descriptors to JSON."""
     import fractions
